@@ -60,6 +60,11 @@ typedef struct Avtp_Cvf {
 #define AVTP_CRF_PULL_MULT_BY_25_OVER_24	0x04
 #define AVTP_CRF_PULL_MULT_BY_1_OVER_8		0x05
 
+#ifdef COVESA_OPEN1722_VERIF
+/* verification hook: the verifier's C front end compares enum operands as signed int, GCC (no negative
+ * enumerator) as unsigned int; under the guard the identifier type is the unsigned int GCC uses */
+#define Avtp_CrfField_t Avtp_CrfField_t_verif_enum
+#endif
 typedef enum Avtp_CrfField {
     /* CRF header fields */
     AVTP_CRF_FIELD_SUBTYPE,
@@ -79,6 +84,10 @@ typedef enum Avtp_CrfField {
     /* Count number of fields for bound checks */
     AVTP_CRF_FIELD_MAX,
 }Avtp_CrfField_t;
+#ifdef COVESA_OPEN1722_VERIF
+#undef Avtp_CrfField_t
+typedef unsigned int Avtp_CrfField_t;
+#endif
 
 void Avtp_Crf_Init(Avtp_Crf_t* pdu);
 
